@@ -148,8 +148,27 @@ pub fn parse_junit(xml: &str) -> Result<Junit, String> {
                     Event::Empty(e) => (true, true, Some(e.clone())),
                     _ => (false, false, None),
                 };
+                if let Event::Text(t) = &ev {
+                    // character data: `<` and a `&` that does not begin a reference are not allowed
+                    if let Err(err) = t.unescape() {
+                        return Err(format!("XML not well-formed: character data {:?}: {}", String::from_utf8_lossy(t.as_ref()).chars().take(80).collect::<String>(), err));
+                    }
+                }
                 if is_start {
                     let e = e.unwrap();
+                    for a in e.attributes() {
+                        match a {
+                            Err(err) => return Err(format!("XML not well-formed: attribute: {}", err)),
+                            Ok(a) => {
+                                if let Err(err) = a.unescape_value() {
+                                    return Err(format!("XML not well-formed: attribute value {:?}: {}", String::from_utf8_lossy(&a.value).chars().take(80).collect::<String>(), err));
+                                }
+                                if a.value.contains(&b'<') {
+                                    return Err("XML not well-formed: `<` in an attribute value".into());
+                                }
+                            }
+                        }
+                    }
                     let name = String::from_utf8_lossy(e.name().as_ref()).to_string();
                     match name.as_str() {
                         "testsuites" => {
@@ -506,11 +525,11 @@ fn random_case(u: &mut Choices, sz: Size) -> CaseResult {
     // one case in six: a failing value that holds markup and control characters (it is quoted in
     // every report: the structured renderings must stay well formed)
     if u.chance(1, 6) {
-        let nasty = *u.pick(&["a\u{1}<b ]]> & \u{b}", "<![CDATA[ x ]]> \u{1b}[31m", "\"quoted\" 'single' \u{8}", "tab\there\nnewline \u{1f}"]);
+        let nasty = *u.pick(&["a\u{1}<b ]]> & \u{b}", "<![CDATA[ x ]]> \u{1b}[31m", "\"quoted\" 'single' \u{8}", "tab\there\nnewline \u{1f}", "Research & Development", "a &amp b &#x; &lt;tag attr=\"v\"&gt; &", "x < y && y > z"]);
         if let V::Map(m) = &mut doc {
             m.push(("ctl".into(), V::s(nasty)));
         }
-        text.push_str("rule zctl {\n  ctl == 2 <<zctl message>>\n}\n");
+        text.push_str(if u.chance(1, 2) { "rule zctl {\n  ctl == 2 <<zctl message>>\n}\n" } else { "rule zctl {\n  ctl == 2 <<zctl & \"message\" <b> a&b;>>\n}\n" });
     }
     let doc_text = doc.to_json();
     let mut evals = 0;
